@@ -181,6 +181,7 @@ impl World {
     /// Issue a concrete request through the world's entry point (no oracle).
     pub fn issue(&mut self, req: &Req, ch: &Chunking, out: &mut RunOut) -> Resp {
         self.inst.ctl.begin_request(std::mem::take(&mut self.next_faults));
+        crate::vfs::pause_capture(false);
         let resp = match (self.entry, &self.app) {
             (Entry::Http, Some(app)) => {
                 let (resp, raw, mm) = match self.wire_override.take() {
@@ -198,6 +199,7 @@ impl World {
             }
             _ => self.inst.call_lib(req),
         };
+        crate::vfs::pause_capture(true);
         self.steps += 1;
         self.digest.add_str(&req.short());
         self.digest.add_str(&resp.short());
